@@ -218,6 +218,7 @@ func main() {
 		solver   = flag.String("solver", "z3-new", "z3|z3-new|cvc5")
 		replay   = flag.String("replay", "", "replay file: run the harness concretely in the interpreter and natively")
 		noNative = flag.Bool("no-native", false, "skip native replay of counterexamples")
+		validate = flag.Int("validate", -1, "passing paths per harness to re-run natively (encoder validation); -1 = tier default")
 		setP     = flag.String("set", "", "override params: K=3,N=4")
 		budgetS  = flag.Int("budget", 0, "wall-clock budget per harness in seconds (0 = spec default)")
 	)
@@ -331,6 +332,16 @@ func main() {
 			L.noSummary[n] = true
 		}
 		E := &Explorer{L: L, H: h, fn: fn, params: params, solverKind: *solver, verbose: *verbose, trace: *trace, debugForced: os.Getenv("SYMGO_DEBUG_FORCED") != ""}
+		E.validateN = *validate
+		if E.validateN < 0 {
+			E.validateN = 0
+			if *tier == "thorough" {
+				E.validateN = 2
+			}
+		}
+		if h.NoNative || *noNative {
+			E.validateN = 0
+		}
 		E.maxSteps = h.MaxSteps
 		if E.maxSteps == 0 {
 			E.maxSteps = 5_000_000
